@@ -213,6 +213,14 @@ def gen_case(rnd, prop, tier):
         wl = None if rnd.random() < 0.5 else rnd.sample(pairs, rnd.randint(1, len(pairs)))
         params = dict(rounds=rnd.choice([None, 1, 2, 3, 5]), noise=rnd.choice(['gaussian', 'gaussian', 'laplace', 'normal']), bounded=bounded,
                       alpha=rnd.choice([0.9, 0.9, 0.5, 0.2, 0.95, 0.99]), workload=wl, maxsize_mb=rnd.choice([25, 25, 25, 1e-3, 6e-4, 3e-4]))
+        if rnd.random() < 0.3:
+            # a size limit that bites: in round 1 exactly one candidate fits (limit = maxsize_mb * round / rounds), later rounds admit more
+            cand = wl if wl is not None else pairs
+            msz = sorted(int(np.prod([sizes[attrs.index(a)] for a in c])) + sum(sz for a, sz in zip(attrs, sizes) if a not in c) for c in cand)
+            r_ = rnd.choice([2, 3, 5])
+            if len(msz) >= 2 and msz[0] < msz[1]:
+                params['rounds'] = r_
+                params['maxsize_mb'] = r_ * 0.5 * (msz[0] + msz[1]) * 8 / 2 ** 20
     elif mech == 'adagrid':
         tg = []
         if 3 <= d <= 5 and rnd.random() < 0.3:
